@@ -1,14 +1,14 @@
 package mutate
 
 const (
-	fFmt      = "pkg/netpol/connlist/conns_formatter.go"
-	fFmtDot   = "pkg/netpol/connlist/conns_formatter_dot.go"
-	fFmtTxt   = "pkg/netpol/connlist/conns_formatter_txt.go"
-	fFmtCSV   = "pkg/netpol/connlist/conns_formatter_csv.go"
-	fFmtMD    = "pkg/netpol/connlist/conns_formatter_md.go"
-	fFmtJSON  = "pkg/netpol/connlist/conns_formatter_json.go"
-	fDiffFmt  = "pkg/netpol/diff/diff_formatter.go"
-	fDiffDot  = "pkg/netpol/diff/diff_formatter_dot.go"
+	fFmt       = "pkg/netpol/connlist/conns_formatter.go"
+	fFmtDot    = "pkg/netpol/connlist/conns_formatter_dot.go"
+	fFmtTxt    = "pkg/netpol/connlist/conns_formatter_txt.go"
+	fFmtCSV    = "pkg/netpol/connlist/conns_formatter_csv.go"
+	fFmtMD     = "pkg/netpol/connlist/conns_formatter_md.go"
+	fFmtJSON   = "pkg/netpol/connlist/conns_formatter_json.go"
+	fDiffFmt   = "pkg/netpol/diff/diff_formatter.go"
+	fDiffDot   = "pkg/netpol/diff/diff_formatter_dot.go"
 	fDotCommon = "pkg/netpol/internal/dotformatting/dot_output_formatting.go"
 )
 
